@@ -1,7 +1,7 @@
 (* C06 -- property theorems only.  Each is closed by `exact` of a lemma from
    proofs/ and followed by Print Assumptions. *)
 From Coq Require Import List.
-From Dagrt Require Import Generated Simplify SimplifyProofs.
+From Dagrt Require Import GenC06 Simplify SimplifyProofs.
 
 (* Full statement of the property for the code as it is now (flags from Generated.v). *)
 Definition C06_full_statement : Prop :=
